@@ -6,22 +6,41 @@ import (
 	"fmt"
 	"io"
 	"strings"
+	"sync"
+	"time"
 )
 
 // ---- C14: the real datagramBufferedPipe driven directly ----
 
-type Verif14DG struct{ p *datagramBufferedPipe }
+// q and shut are the driver's OWN account of what it has handed to the pipe and taken out of it (lengths of the
+// datagrams a Write accepted and no Read has returned yet; whether a closing frame was written or Close called): whether a
+// Read is attempted, and what the next datagram's length should be, must not depend on how the pipe stores its queue.
+type Verif14DG struct {
+	p    *datagramBufferedPipe
+	mu   sync.Mutex // several writer goroutines in the concurrent scenario
+	q    []int
+	shut bool
+}
 
-func Verif14NewDG() *Verif14DG { return &Verif14DG{NewDatagramBufferedPipe()} }
+func Verif14NewDG() *Verif14DG { return &Verif14DG{p: NewDatagramBufferedPipe()} }
 
 func (v *Verif14DG) Write(closing uint8, payload []byte) string {
+	// the account is kept in the order in which the pipe accepted the writes: one lock around both
+	v.mu.Lock()
 	toBeClosed, err := v.p.Write(&Frame{StreamID: 1, Closing: closing, Payload: payload})
+	if err == nil && !toBeClosed {
+		v.q = append(v.q, len(payload))
+	}
+	v.mu.Unlock()
 	switch {
 	case err == io.ErrClosedPipe && toBeClosed:
 		return "closed"
 	case err != nil:
 		return "err:" + err.Error()
 	case toBeClosed:
+		v.mu.Lock()
+		v.shut = true
+		v.mu.Unlock()
 		return "close"
 	}
 	return "ok"
@@ -37,8 +56,15 @@ func verif14peek(p *datagramBufferedPipe) (head int, n int, bufLen int, closed b
 	return head, len(p.pLens), p.buf.Len(), p.closed
 }
 
-// HeadLen is the length of the next datagram, -1 if the queue is empty.
-func (v *Verif14DG) HeadLen() int { h, _, _, _ := verif14peek(v.p); return h }
+// HeadLen is the length of the next datagram, -1 if the queue is empty (by the driver's own account).
+func (v *Verif14DG) HeadLen() int {
+	v.mu.Lock()
+	defer v.mu.Unlock()
+	if len(v.q) == 0 {
+		return -1
+	}
+	return v.q[0]
+}
 
 func verif14read(p *datagramBufferedPipe, capacity int) (string, []byte) {
 	_, n, _, closed := verif14peek(p)
@@ -58,10 +84,44 @@ func verif14read(p *datagramBufferedPipe, capacity int) (string, []byte) {
 	return "err:" + err.Error(), nil
 }
 
-// Read returns "block" instead of parking when the real Read would wait.
-func (v *Verif14DG) Read(capacity int) (string, []byte) { return verif14read(v.p, capacity) }
+// Read returns "block" instead of parking when the real Read would wait: nothing accepted is outstanding and the pipe
+// was not closed. Otherwise the real Read is called, under a 300 ms read deadline as a safety net: a pipe that has
+// lost what it accepted answers "lost" instead of hanging the driver.
+func (v *Verif14DG) Read(capacity int) (string, []byte) {
+	v.mu.Lock()
+	idle := len(v.q) == 0 && !v.shut
+	v.mu.Unlock()
+	if idle {
+		return "block", nil
+	}
+	v.p.SetReadDeadline(time.Now().Add(300 * time.Millisecond))
+	b := make([]byte, capacity)
+	k, err := v.p.Read(b)
+	v.p.SetReadDeadline(time.Time{})
+	switch err {
+	case nil:
+		v.mu.Lock()
+		if len(v.q) > 0 {
+			v.q = v.q[1:]
+		}
+		v.mu.Unlock()
+		return "data", b[:k]
+	case io.EOF:
+		return "eof", nil
+	case io.ErrShortBuffer:
+		return "short", nil
+	case ErrTimeout:
+		return "lost", nil
+	}
+	return "err:" + err.Error(), nil
+}
 
-func (v *Verif14DG) Close() { v.p.Close() }
+func (v *Verif14DG) Close() {
+	v.mu.Lock()
+	v.shut = true
+	v.mu.Unlock()
+	v.p.Close()
+}
 
 func verif14state(p *datagramBufferedPipe) string {
 	p.rwCond.L.Lock()
@@ -138,6 +198,12 @@ func Verif14StreamRead(s *Stream, capacity int) (string, []byte) {
 	if n == 0 && !closed {
 		return "block", nil
 	}
+	// the inspection above reads the pipe's own queue of lengths; should the pipe keep its queue differently (or have
+	// lost a datagram) the Read below would park: a short read deadline turns that into "block" instead of a hung driver
+	if capacity > 0 {
+		s.SetReadDeadline(time.Now().Add(300 * time.Millisecond))
+		defer s.SetReadDeadline(time.Time{})
+	}
 	b := make([]byte, capacity)
 	k, err := s.Read(b)
 	switch err {
@@ -147,6 +213,8 @@ func Verif14StreamRead(s *Stream, capacity int) (string, []byte) {
 		return "eof", nil
 	case io.ErrShortBuffer:
 		return "short", nil
+	case ErrTimeout:
+		return "block", nil
 	}
 	return "err:" + err.Error(), nil
 }
